@@ -1,5 +1,6 @@
 import Driver.Common
 import AggkitModel.Model.Aggsender
+import AggkitModel.Model.ClaimProof
 namespace Driver.Aggsender
 open Aggkit.Aggsender Aggkit.CertRange
 
@@ -46,8 +47,39 @@ def tickOut (s0 : Sys) (r : Sys × SendOut) (crash : Bool) : String :=
   let _ := s0
   head ++ mid ++ " rows=" ++ rowsStr s.loc
 
+def KH : Aggkit.HashAlg Aggkit.Bytes := { node := fun a b => Driver.keccakBytes (a ++ b), zero := List.replicate 32 0 }
+
+def parseHashes (s : String) : Option (List Aggkit.Bytes) := (s.splitOn ",").mapM Aggkit.fromHex
+
+def mph (p : Aggkit.ClaimProof.MP Aggkit.Bytes) : Aggkit.Bytes := Driver.keccakBytes (p.root ++ p.siblings.flatten)
+
+/-- digest of the packed claim data, same layout as `ClaimData.Hash` -/
+def claimDigest (p : Aggkit.ClaimProof.Packed Aggkit.Bytes) (l1LeafHash : Aggkit.Bytes) : Aggkit.Bytes :=
+  let mid := match p.lerProof with
+    | some q => mph q
+    | none => []
+  Driver.keccakBytes (mph p.leafProof ++ mid ++ mph p.gerProof ++ l1LeafHash)
+
+def claimData (fs : List String) : String :=
+  match fs with
+  | [_, _, mainnet, rollup, leaf, exitLeaf, mer, rer, k, ph, ts, root, pl, pr, pg] =>
+    match Driver.parseBool mainnet, rollup.toNat?, leaf.toNat?, Aggkit.fromHex exitLeaf, Aggkit.fromHex mer, Aggkit.fromHex rer,
+          k.toNat?, Aggkit.fromHex ph, ts.toNat?, Aggkit.fromHex root, parseHashes pl, parseHashes pr, parseHashes pg with
+    | some mainnet, some rollup, some leaf, some exitLeaf, some mer, some rer, some k, some ph, some ts, some root,
+      some pl, some pr, some pg =>
+      let ger := KH.node mer rer
+      let c : Aggkit.ClaimProof.ClaimIn Aggkit.Bytes :=
+        { mainnet := mainnet, rollup := rollup, leaf := leaf, exitLeaf := exitLeaf, mer := mer, rer := rer, ger := ger,
+          proofLocal := pl, proofRollup := pr }
+      let p := Aggkit.ClaimProof.pack KH c k ger pg root
+      let l1 := Driver.keccakBytes (ger ++ ph ++ Aggkit.fillBE 8 ts)
+      s!"claim h={Aggkit.toHex (claimDigest p l1)} idx={p.l1Index} mer={Aggkit.toHex (p.l1Mer.take 4)} rer={Aggkit.toHex (p.l1Rer.take 4)}"
+    | _, _, _, _, _, _, _, _, _, _, _, _, _ => "bad-op"
+  | _ => "bad-op"
+
 def step (w : W) (ws : List String) : W × String :=
   match ws with
+  | "claimdata" :: fs => (w, claimData fs)
   | ["new", retry, start, maxSize, _hist, omitPrev] =>
     match Driver.parseBool retry, start.toNat?, maxSize.toNat?, Driver.parseBool omitPrev with
     | some r, some st, some ms, some op =>
